@@ -14,6 +14,27 @@ class Alpha(Command):
 class Shared(Command):
     output = params.StringParameter()
     def execute(self, **kw): return "ulib.Shared"
+class AlphaTwo(Alpha):
+    """A variant of a command of the same library: only class attributes differ, execute() is inherited."""
+    display_name = "Alpha, second flavour"
+''',
+    "canopy.py": '''
+from mpilot import params
+from mpilot.commands import Command
+class Cover(Command):
+    output = params.StringParameter()
+    def execute(self, **kw):
+        open("cover_by.txt", "a").write("canopy.Cover\\n")
+        return "canopy.Cover"
+''',
+    "cano.py": '''
+from mpilot import params
+from mpilot.commands import Command
+class Cover(Command):
+    output = params.StringParameter()
+    def execute(self, **kw):
+        open("cover_by.txt", "a").write("cano.Cover\\n")
+        return "cano.Cover"
 ''',
     "ulib_extra.py": '''
 from mpilot import params
@@ -199,15 +220,33 @@ def describe(libs):
             lookups["typo-" + typo] = "%s:%s:%s" % (type(e).__name__, sorted((k, repr(v)) for k, v in vars(e).items()), str(e))
         except Exception as e:
             lookups["typo-" + typo] = "raw:" + type(e).__name__
+    # command classes handed to add_command as a caller gets them from an ordinary import of a requested library
+    for form, modname, clsname, args in (("api-ulib-Alpha", "ulib", "Alpha", {}), ("api-csv-EEMSRead", "mpilot.libraries.eems.csv.io", "EEMSRead", {"InFileName": __file__, "InFieldName": "x"}),
+                                         ("api-basic-Sum", "mpilot.libraries.eems.basic", "Sum", {"InFieldNames": []})):
+        if not any(modname == l or modname.startswith(l + ".") for l in libs):
+            continue
+        try:
+            import importlib
+            cls = getattr(importlib.import_module(modname), clsname)
+            q = Program(libraries=tuple(libs))
+            q.add_command(cls, "viaapi", dict(args))
+            lookups[form] = "added:%s" % type(q.commands["viaapi"]).__module__
+        except MPilotError as e:
+            lookups[form] = "%s" % type(e).__name__
+        except Exception as e:
+            lookups[form] = "raw:" + type(e).__name__
     return {"outcome": "ok", "library": lib, "lookups": lookups}
 
 
-def cli_run(d, libset, extra):
+def cli_run(d, libset, extra, model=None):
     """One run of the command-line tool on a small model; returns [exit code, first line of stderr]."""
     from click.testing import CliRunner
     from mpilot.cli.mpilot import main
-    path = os.path.join(d, "cli_model.mpt")
-    if not os.path.exists(path):
+    path = os.path.join(d, "cli_model.mpt" if model is None else "cli_model2.mpt")
+    if model is not None:
+        with open(path, "w") as f:
+            f.write(model)
+    elif not os.path.exists(path):
         with open(os.path.join(d, "cli_t.csv"), "w") as f:
             f.write("x\n1\n2\n")
         with open(path, "w") as f:
@@ -265,6 +304,16 @@ def main():
     out = describe(spec["probe"])
     # the command-line tool afterwards, with no extra libraries: what it does depends on its own arguments only
     out["cli"] = {"eems-csv": cli_run(d, "eems-csv", []), "eems-netcdf-with-other": cli_run(d, "eems-csv", ["other"])}
+    # a library named on the command line is the library that is used (names ending in p / y / . among them)
+    cwd = os.getcwd()
+    os.chdir(d)
+    try:
+        if os.path.exists("cover_by.txt"):
+            os.remove("cover_by.txt")
+        r = cli_run(d, "eems-csv", ["canopy"], model="C = Cover()\n")
+        out["cli"]["-l canopy"] = r + [open("cover_by.txt").read().split() if os.path.exists("cover_by.txt") else None]
+    finally:
+        os.chdir(cwd)
     out["steps"] = steps_seen
     print("C19RESULT " + json.dumps(out, sort_keys=True))
 
